@@ -2,6 +2,7 @@ import Driver.Proto
 import Driver.C06
 import Verif.Spec.C09XmlLex
 import Verif.Model.C09SvgText
+import Verif.Model.Xml
 /-! driver handlers for the XML/SVG slice of C09 (ops `spec.c09.xml.*`) -/
 namespace Verif.Driver.C09Xml
 open Verif Verif.Driver
@@ -73,6 +74,16 @@ def agree : Handler := fun args => do
     let b := (dropPi false (view ts)).map normAttrWs
     .ok (strBytes (if a == b && piTargets mine == piTargets ts then "1" else "0"))
 
+/-- `model.c09.xml.pass keepWhitespace bytes` → `1` followed by the bytes the model of `xml.Minify` writes for the tokens
+the independent tokeniser reads from `bytes` (TAB, LF, CR inside attribute values replaced by spaces first, as the
+dependency lexer does), or `0` when the tokeniser rejects the bytes -/
+def pass : Handler := fun args => do
+  let keep ← argBool args 0
+  let s ← argChars args 1
+  match xmlTokens s with
+  | none => .ok (listReply [natB 0])
+  | some ts => .ok (listReply [natB 1, charsToBytes (Model.Xml.xmlMinify { keepWhitespace := keep } (ts.map normAttrWs))])
+
 /-- `model.c09.xml.svgtext n data` → bytes written by the `TextToken` branch of svg.go (outside `style`) -/
 def svgtext : Handler := fun args => do
   let n ← argNat args 0
@@ -94,6 +105,6 @@ def svgattr : Handler := fun args => do
 def handlers : List (String × Handler) :=
   [("spec.c09.xml.tokens", tokens), ("spec.c09.xml.cmp", cmp), ("spec.c09.xml.contract", contract),
    ("spec.c09.xml.agree", agree), ("model.c09.xml.svgtext", svgtext), ("model.c09.xml.svgcdata", svgcdata),
-   ("model.c09.xml.svgattr", svgattr)]
+   ("model.c09.xml.svgattr", svgattr), ("model.c09.xml.pass", pass)]
 
 end Verif.Driver.C09Xml
